@@ -2,9 +2,9 @@ package sx
 
 import (
 	"fmt"
-	"os"
 	"go/token"
 	"go/types"
+	"os"
 	"sort"
 	"strings"
 	"sync"
@@ -28,7 +28,7 @@ type Config struct {
 	MaxDepth    int
 	TimeoutMs   int // solver timeout
 	Deadline    time.Time
-	UnwindIsBug bool   // reaching the unwind bound is the violation (derived-bound harnesses)
+	UnwindIsBug bool    // reaching the unwind bound is the violation (derived-bound harnesses)
 	Known       []Known // known-finding predicates (messages)
 	Workers     int
 	ArithHint   bool
@@ -61,31 +61,31 @@ type NondetVal struct {
 
 // Report is the outcome of exploring one harness.
 type Report struct {
-	Paths          int
-	PathsCompleted int
-	PathsInfeasible int
-	PathsAsserting int // distinct feasible paths that reached >= 1 assertion
-	Obligations    int // assertion queries discharged
-	ObligationsUnsat int
-	Forks          int
-	Steps          int64
-	MaxUnwindSeen  int
-	Findings       []Finding
-	Inconclusive   []string // reasons (unsupported, timeouts, budgets)
-	Witnesses      int      // reachability witnesses (assert sites reached on a feasible path)
-	AssertSites    map[string]int
-	Assumes        map[string]int
-	FuncsReal      map[string]int
-	FuncsReplaced  map[string]int
-	FuncsIntrinsic map[string]int
-	FuncsOpaque    map[string]int
-	Solver         smt.Stats
-	Samples        []map[string]interface{}
-	Wall           time.Duration
-	RecoveredPanics int
+	Paths                 int
+	PathsCompleted        int
+	PathsInfeasible       int
+	PathsAsserting        int // distinct feasible paths that reached >= 1 assertion
+	Obligations           int // assertion queries discharged
+	ObligationsUnsat      int
+	Forks                 int
+	Steps                 int64
+	MaxUnwindSeen         int
+	Findings              []Finding
+	Inconclusive          []string // reasons (unsupported, timeouts, budgets)
+	Witnesses             int      // reachability witnesses (assert sites reached on a feasible path)
+	AssertSites           map[string]int
+	Assumes               map[string]int
+	FuncsReal             map[string]int
+	FuncsReplaced         map[string]int
+	FuncsIntrinsic        map[string]int
+	FuncsOpaque           map[string]int
+	Solver                smt.Stats
+	Samples               []map[string]interface{}
+	Wall                  time.Duration
+	RecoveredPanics       int
 	BranchesKeptOnUnknown int
-	ForkSites map[string]int
-	Concretised map[string]int // large-array index sites where untouched cells were represented by one member
+	ForkSites             map[string]int
+	Concretised           map[string]int // large-array index sites where untouched cells were represented by one member
 }
 
 func newReport() *Report {
@@ -172,41 +172,41 @@ type Engine struct {
 	rep  *Report
 
 	// heap
-	nextObj int
-	epoch   int
-	undo    []func()
-	globals map[*ssa.Global]*Obj
+	nextObj  int
+	epoch    int
+	undo     []func()
+	globals  map[*ssa.Global]*Obj
 	initDone map[*ssa.Package]bool
 
 	// per path
-	pc        []*smt.Term
-	prefix    []int
-	taken     []int
-	pos       int
-	nondets   []NondetVal
-	ndTerms   []*smt.Term
-	steps     int
-	depth     int
-	stack     []*frame
-	asserted  bool
-	pathFind  int
-	work      *workQueue
-	extraCtx  map[string]interface{} // per-path scratch for intrinsic models (fs, clock)
-	goroutines []*gor
-	cur       *gor
-	frozen    bool
-	replaceFn map[string]*ssa.Function
-	fnInfoMu  *sync.Mutex
-	lastModel map[string]uint64
-	lastModelPC int
-	curPosTok token.Pos
-	deferDepth int
+	pc           []*smt.Term
+	prefix       []int
+	taken        []int
+	pos          int
+	nondets      []NondetVal
+	ndTerms      []*smt.Term
+	steps        int
+	depth        int
+	stack        []*frame
+	asserted     bool
+	pathFind     int
+	work         *workQueue
+	extraCtx     map[string]interface{} // per-path scratch for intrinsic models (fs, clock)
+	goroutines   []*gor
+	cur          *gor
+	frozen       bool
+	replaceFn    map[string]*ssa.Function
+	fnInfoMu     *sync.Mutex
+	lastModel    map[string]uint64
+	lastModelPC  int
+	curPosTok    token.Pos
+	deferDepth   int
 	tolerantInit bool
-	uniqueTab []uniqueEnt
-	killing   bool
+	uniqueTab    []uniqueEnt
+	killing      bool
 	pendingAbort *abortPath
-	deadlock  bool
-	schedForks int
+	deadlock     bool
+	schedForks   int
 }
 
 // curPos renders the current source position.
